@@ -101,14 +101,16 @@ Proof.
     destruct op; try exact (generic_compare_ok o d _ _ r Hd).
     destruct r as [ g l' | l1 op' r1 | b | f' m' | f' | x | s | z | k e | cols rows | e | f' e | | s f' cst ];
       try exact (generic_compare_ok o d _ _ _ Hd).
-    destruct m'; try exact (generic_compare_ok o d _ _ _ Hd).
-    cbn [solve_compare].
-    destruct (Hd f) as [vx ->]; cbn [bind].
-    destruct vx as [vx|]; [|apply okr_ok].
-    destruct (value_to_string o vx) as [xs|]; [|apply okr_ok].
-    destruct (Hd f') as [vy ->]; cbn [bind].
-    destruct vy as [vy|]; [|apply okr_ok].
-    destruct (value_to_string o vy) as [ys|]; apply okr_ok.
+    + destruct m'; try exact (generic_compare_ok o d _ _ _ Hd).
+      cbn [solve_compare].
+      destruct (Hd f) as [vx ->]; cbn [bind].
+      destruct vx as [vx|]; [|apply okr_ok].
+      destruct (value_to_string o vx) as [xs|]; [|apply okr_ok].
+      destruct (Hd f') as [vy ->]; cbn [bind].
+      destruct vy as [vy|]; [|apply okr_ok].
+      destruct (value_to_string o vy) as [ys|]; apply okr_ok.
+    + (* str(f) == null, fix D27 *)
+      cbn [solve_compare]. destruct (Hd f) as [vx ->]; cbn [bind]. apply okr_ok.
   - (* EField *)
     destruct op; try exact (generic_compare_ok o d _ _ r Hd).
     destruct r as [ g l' | l1 op' r1 | b | f' m' | f' | x | s | z | k e | cols rows | e | f' e | | s f' cst ];
